@@ -327,6 +327,32 @@ class Report:
         return 1 if self.violations else 0
 
 
+def coqchk_props(timeout=3000):
+    """independent re-check (coqchk) of every compiled property file and everything it depends on; returns
+    (ok, axioms reported outside the library's primitive integers/floats/arrays, log tail)"""
+    mods = []
+    for f in sorted(os.listdir(os.path.join(COQ, "theories", "Props"))):
+        if f.endswith(".vo"):
+            mods.append("GV.Props." + f[:-3])
+    p = run(["timeout", str(timeout), "coqchk", "-silent", "-o", "-R", "theories", "GV"] + mods, cwd=COQ, timeout=timeout + 60)
+    out = p.stdout + p.stderr
+    axioms = []
+    m = re.search(r"\* Axioms:(.*?)\* Constants/Inductives relying on type-in-type", out, re.S)
+    if m:
+        for line in m.group(1).splitlines():
+            line = line.strip()
+            if line and not re.search(r"Int63|Uint63|PrimFloat|PrimArray|Floats\.|PArray", line):
+                axioms.append(line)
+    ok = p.returncode == 0 and "type-in-type: <none>" in out and "unsafe (co)fixpoints: <none>" in out and "positivity is assumed: <none>" in out
+    return ok, axioms, out[-1500:]
+
+
+def emit_all_gen():
+    """regenerate every Gen/*.v table from the current tree (each emitter rewrites its file only when it changed)"""
+    import gen
+    gen.emit_all(stage_gotables(), stage_tables())
+
+
 def coq_cases(name, body, timeout=900):
     """compile a generated cases file (outside the project tree) against the built theories"""
     d = os.path.join(BUILD, "cases")
